@@ -29,6 +29,7 @@ import (
 
 	"github.com/centrifugal/centrifuge"
 	"github.com/centrifugal/centrifuge/verifx/kit"
+	"github.com/centrifugal/centrifuge/verifx/mapcm"
 	"github.com/centrifugal/protocol"
 )
 
@@ -938,7 +939,120 @@ func runCase(c *kit.Case) {
 		_ = s.conn.CloseFn()
 		synctest.Wait()
 	}
+	if c.Index%3 == 1 && !c.Violated() {
+		mapLoadingScenario(c, w)
+	}
 	w.Shutdown()
+}
+
+// mapLoadingScenario: 1-2 paginated map subscribes of one connection are held between their first and
+// second state page (they are "loading": not yet subscriptions, but on their way), regular subscribes
+// fill the rest of the channel limit and then go beyond it, then the map subscribes finish and go live.
+// Whoever is refused, the connection must never end up holding more subscriptions than the limit, and
+// nobody may be refused while subscriptions plus loading map subscribes are below it.
+func mapLoadingScenario(c *kit.Case, w *kit.World) {
+	r := c.R
+	L := kit.Pick(r, []int{1, 2, 2, 3, 5})
+	node, _ := w.NewNode(centrifuge.Config{
+		ClientChannelLimit:    L,
+		ClientStaleCloseDelay: time.Hour,
+		Map: centrifuge.MapConfig{GetMapChannelOptions: func(string) centrifuge.MapChannelOptions {
+			return centrifuge.MapChannelOptions{Mode: centrifuge.MapModeEphemeral, KeyTTL: time.Minute, MinPageSize: 1, DefaultPageSize: 1, MaxPageSize: 100}
+		}},
+	}, func(n *centrifuge.Node) {
+		mb, err := centrifuge.NewMemoryMapBroker(n, centrifuge.MemoryMapBrokerConfig{})
+		if err != nil {
+			panic(err)
+		}
+		n.SetMapBroker(mb)
+		n.OnConnecting(func(context.Context, centrifuge.ConnectEvent) (centrifuge.ConnectReply, error) {
+			return kit.Creds("ml"), nil
+		})
+		n.OnConnect(func(cl *centrifuge.Client) {
+			cl.OnSubscribe(func(e centrifuge.SubscribeEvent, cb centrifuge.SubscribeCallback) {
+				cb(centrifuge.SubscribeReply{Options: centrifuge.SubscribeOptions{Type: e.Type}}, nil)
+			})
+		})
+	})
+	nMaps := 1
+	if L >= 2 && r.Bool() {
+		nMaps = 2
+	}
+	ctx := context.Background()
+	for i := 0; i < nMaps; i++ {
+		for k := 0; k < 3; k++ {
+			if _, err := node.MapPublish(ctx, fmt.Sprintf("ml:m%d", i), fmt.Sprintf("k%d", k), centrifuge.MapPublishOptions{Data: []byte(`{}`)}); err != nil {
+				c.Inconclusive("map loading scenario: MapPublish: " + err.Error())
+				return
+			}
+		}
+	}
+	conn := w.NewConn(node, kit.TransportOpts{Protocol: kit.Pick(r, []centrifuge.ProtocolType{centrifuge.ProtocolTypeJSON, centrifuge.ProtocolTypeProtobuf})})
+	conn.Connect(nil)
+	w.Settle()
+	maps := make([]*mapcm.Client, nMaps)
+	var wg sync.WaitGroup
+	for i := range maps {
+		m := mapcm.New(conn, fmt.Sprintf("ml:m%d", i), 1)
+		hold := time.Duration(100+10*i) * time.Millisecond
+		m.StepDelay = func(step int) time.Duration {
+			if step == 1 {
+				return hold // between the first and the second state page
+			}
+			return 0
+		}
+		maps[i] = m
+		wg.Add(1)
+		go func() { defer wg.Done(); m.Subscribe() }()
+	}
+	time.Sleep(50 * time.Millisecond)
+	// every map subscribe has had its first state page by now and sleeps before the second one
+	// (the model clients are read only after their goroutines have finished)
+	loading := nMaps
+	room := L - loading
+	nReg := room + r.Range(1, 2)
+	var steps []string
+	refusedBelow := -1
+	for j := 0; j < nReg; j++ {
+		id := conn.Subscribe(&protocol.SubscribeRequest{Channel: fmt.Sprintf("ml:r%d", j)})
+		f, ok := conn.PollReply(id, 5*time.Second)
+		code := uint32(0)
+		if ok && f.Reply.Error != nil {
+			code = f.Reply.Error.Code
+		}
+		steps = append(steps, fmt.Sprintf("regular subscribe #%d with %d map subscribe(s) loading -> replied=%v error=%d", j, loading, ok, code))
+		if code == codeLimitExceeded {
+			c.Count("regular_subscribe_refused_while_map_subscribes_load", 1)
+			if j < room && refusedBelow < 0 {
+				refusedBelow = j
+			}
+		}
+	}
+	wg.Wait()
+	w.Settle()
+	live := 0
+	for _, m := range maps {
+		steps = append(steps, fmt.Sprintf("map %s: live=%v ended=%q steps=%v", m.Channel, m.Live, m.Ended, m.Steps))
+		if m.Live {
+			live++
+		} else if m.ErrCode == codeLimitExceeded {
+			c.Count("map_subscribe_refused_at_go_live", 1)
+		}
+	}
+	held := conn.Client.Channels()
+	detail := map[string]any{"channel_limit": L, "steps": steps, "channels_held": held}
+	c.Eval(1)
+	c.Count("scenario_map-loading", 1)
+	c.Count("map_subscribes_held_between_state_pages", loading)
+	switch {
+	case len(held) > L:
+		c.Violation("c37-connection-holds-more-subscriptions-than-channel-limit", fmt.Sprintf("map subscribes loading while regular subscribes fill the limit: the connection ends up holding %d subscriptions with ClientChannelLimit=%d", len(held), L), detail)
+	case refusedBelow >= 0:
+		c.Violation("c37-limit-exceeded-below-channel-limit", fmt.Sprintf("regular subscribe #%d was refused with limit-exceeded while the connection held %d subscriptions and %d loading map subscribes (limit %d)", refusedBelow, refusedBelow, loading, L), detail)
+	}
+	c.Nontrivial(fmt.Sprintf("map-loading|L%d|maps%d|live%d|held%d", L, nMaps, live, len(held)))
+	_ = conn.CloseFn()
+	synctest.Wait()
 }
 
 func TestC37(t *testing.T) {
@@ -949,7 +1063,7 @@ func TestC37(t *testing.T) {
 		Rule: "each case = one node (ClientChannelLimit in {1,2,3,5}, ChannelMaxLength in {12,16,24,64}, ClientQueueMaxSize 1000..3000) in a virtual-time bubble and 8 scenarios, one connection each (JSON or Protobuf; one evaluation per scenario). " +
 			"Subscription scenarios: connect with 0..limit+2 connect-time server-side subscriptions, then 3-9 steps out of {one client subscribe with a synchronous or gated asynchronous OnSubscribe callback; a burst of 2..limit+3 subscribe commands " +
 			"(new, duplicate, names of length max-1/max/max+1/max+2/max+40) whose callbacks are released in permuted order, optionally with a server-side subscribe while they are pending; Client.Subscribe / Node.Subscribe; 2-4 concurrent Client.Subscribe goroutines with or without a " +
-			"concurrent client command; client or server-side unsubscribe}; rarely map-type subscribes (ephemeral map channels). After every step the bubble is settled (synctest.Wait) and the connection is compared with a reference model: " +
+			"concurrent client command; client or server-side unsubscribe}; rarely map-type subscribes (ephemeral map channels). Every third case adds a map-loading scenario on a second node: 1-2 paginated map subscribes of one connection are held between their first and second state page while regular subscribes fill the channel limit and go 1-2 beyond it, then the map subscribes finish; whoever is refused, the connection must not end up above the limit and nothing may be refused below it. After every step the bubble is settled (synctest.Wait) and the connection is compared with a reference model: " +
 			"Client.Channels() never larger than the limit (VerifClient view: reservations counted separately); a new valid channel at a full connection gets error 106, below the limit never 106; a server-side subscribe at a full connection (also when filled by pending reservations, also at connect time) closes with 3505; " +
 			"a client subscribe whose name is longer than ChannelMaxLength gets an error reply and no subscription, a name of exactly the maximum is accepted. " +
 			"Queue scenarios: the writer is parked inside a blocked transport write (RecTransport.Block) or only flushes on a timer (WriteDelay+WriteWithTimer); 1-6 messages (Client.Send pushes, RPC replies) whose encoded sizes sum to limit-200..limit+300 (incl. exactly limit and limit+1) are queued at one instant: " +
@@ -963,7 +1077,7 @@ func TestC37(t *testing.T) {
 			"a spurious limit-exceeded below the limit, a rejected name of at most the maximum length and a slow close without overflow are reported as violations of 'the limits are enforced' although the statement only spells out the other direction",
 		},
 		Cases: map[string]int{"quick": 1200, "thorough": 14000},
-		RequireCounters: []string{"limit_hit_client", "limit_hit_server", "slow_consumer_closed", "queue_below_limit_delivered", "queue_filled_exactly_to_limit", "queue_one_byte_over_limit",
+		RequireCounters: []string{"scenario_map-loading", "regular_subscribe_refused_while_map_subscribes_load", "limit_hit_client", "limit_hit_server", "slow_consumer_closed", "queue_below_limit_delivered", "queue_filled_exactly_to_limit", "queue_one_byte_over_limit",
 			"overlong_rejected_107", "channel_name_exactly_max_length", "connect_time_over_limit", "connect_time_subscriptions", "bursts", "settle_points_with_reservations", "settle_points_at_limit",
 			"concurrent_server_side_steps", "limit_hit_client_by_reservations", "scenario_slow-blocked", "scenario_slow-timer", "scenario_subs", "unsubscribes", "client_subscribes_ok"},
 		Run: runCase,
